@@ -45,11 +45,11 @@ type layoutFile struct {
 	Header   string `json:"header"`
 	Length   string `json:"length"`
 	Types    []struct {
-		Type      string          `json:"type"`
-		Section   string          `json:"section"`
-		Command   json.RawMessage `json:"command"`
-		Fields    [][]interface{} `json:"fields"`
-		Normalise json.RawMessage `json:"normalise"`
+		Type      string                 `json:"type"`
+		Section   string                 `json:"section"`
+		Command   json.RawMessage        `json:"command"`
+		Fields    [][]interface{}        `json:"fields"`
+		Normalise json.RawMessage        `json:"normalise"`
 		Observed  map[string]interface{} `json:"observed"`
 	} `json:"types"`
 }
@@ -362,141 +362,176 @@ func (w *World) synthesise(fs *FuncSpec) error {
 	}
 	r := fn.Params[0].Name()
 	// the document layout is the specification; an `observed` block only narrows a known finding (see check.go)
-	lt := doc
-	if fs.Options["layout-observed"] == "true" {
-		lt = doc.withObserved()
+	variants := []struct {
+		lt     *LayoutType
+		suffix string
+		props  string
+	}{{doc, "", "C01,C02"}}
+	if doc.Observed != nil && doc.Observed["extra_fields"] != nil {
+		// the code is known to implement a layout that deviates from the document (a listed known finding): the document
+		// layout remains the C02 obligation; round trip and every other clause are checked against the observed layout
+		variants = variants[:0]
+		variants = append(variants, struct {
+			lt     *LayoutType
+			suffix string
+			props  string
+		}{doc, "", "C02"}, struct {
+			lt     *LayoutType
+			suffix string
+			props  string
+		}{doc.withObserved(), "~observed", "C01,C02"})
 	}
-	lenMember, _ := lt.headerMembers(r)
-	switch dir[0] {
-	case "enc":
-		enc := &Behavior{Name: "enc", Props: []string{"C01", "C02"}}
-		enc.Requires = append(enc.Requires, mustClause("requires", "", "", r+" != nil"))
-		norm := map[string]bool{}
-		for _, n := range lt.Normalise {
-			for m := range n.Set {
-				norm[m] = true
-			}
-		}
-		for _, f := range lt.Fields {
-			for _, c := range f.wf(r) {
-				enc.Requires = append(enc.Requires, mustClause("requires", "", "", c))
-			}
-		}
-		if lt.Header != "none" {
-			if tf := lt.tlvField(); tf != nil {
-				// total size below 2^32 whatever order the optional parameters are emitted in
-				enc.Requires = append(enc.Requires, mustClause("requires", "", "", "forall tord Ord :: isperm(tord, "+r+"."+tf.Member+") ==> len("+strings.ReplaceAll(lt.layoutText(r, "0", true, -1, len(lt.Fields)), "ORD", "tord")+") < 4294967296"))
-			} else {
-				enc.Requires = append(enc.Requires, mustClause("requires", "", "", "len("+lt.layoutText(r, "0", true, -1, len(lt.Fields))+") < 4294967296"))
-			}
-		}
-		enc.Ensures = append(enc.Ensures, mustClause("ensures", "C01,C02", "enc.ok", "err == nil"))
-		if tf := lt.tlvField(); tf != nil {
-			lay := strings.ReplaceAll(lt.layoutText(r, "len(result)", true, -1, len(lt.Fields)), "ORD", "tord")
-			enc.Ensures = append(enc.Ensures, mustClause("ensures", "C01,C02", "enc.layout", "exists tord Ord :: isperm(tord, "+r+"."+tf.Member+") && result == "+lay))
-			enc.Ensures = append(enc.Ensures, mustClause("ensures", "C01,C02", "enc.len", "len(result) < 4294967296"))
-		} else if lt.Header != "none" {
-			enc.Ensures = append(enc.Ensures, mustClause("ensures", "C01,C02", "enc.layout", "result == "+lt.layoutText(r, "len(result)", true, -1, len(lt.Fields))))
-			enc.Ensures = append(enc.Ensures, mustClause("ensures", "C01,C02", "enc.len", "len(result) < 4294967296"))
-		} else {
-			enc.Ensures = append(enc.Ensures, mustClause("ensures", "C01,C02", "enc.layout", "result == "+lt.layoutText(r, "", false, -1, len(lt.Fields))))
-		}
-		for i, c := range lt.headerEq(r, "old("+r+")") {
-			_ = i
-			c2 := strings.Replace(c, "old("+r+").", "old("+r+".", 1)
-			c2 = fixOld(c, r)
-			enc.Ensures = append(enc.Ensures, mustClause("ensures", "C01", fmt.Sprintf("enc.frame.Header.%d", i), c2))
-		}
-		for _, f := range lt.Fields {
-			if norm[f.Member] {
-				continue
-			}
-			for j, c := range f.eq(r, "old("+r+")") {
-				enc.Ensures = append(enc.Ensures, mustClause("ensures", "C01", fmt.Sprintf("enc.frame.%s.%d", f.Member, j), fixOld(c, r)))
-			}
-		}
-		for _, n := range lt.Normalise {
-			for m, v := range n.Set {
-				cond := qualify(n.If, r, lt)
-				val := qualify(fmt.Sprint(v), r, lt)
-				text := fmt.Sprintf("(old(%s) ==> int(%s.%s) == old(int(%s))) && (!old(%s) ==> %s.%s == old(%s.%s))", cond, r, m, val, cond, r, m, r, m)
-				enc.Ensures = append(enc.Ensures, mustClause("ensures", "C01", "enc.norm."+m, text))
-			}
-		}
-		fs.Behaviors = append(fs.Behaviors, enc)
-		// refusal of values that do not fit their fixed-width slot
-		var over []string
-		for _, f := range lt.Fields {
-			if f.Kind == "fixed" {
-				over = append(over, fmt.Sprintf("len(%s.%s) > %d", r, f.Member, f.N))
-			}
-		}
-		if len(over) > 0 {
-			ref := &Behavior{Name: "refuse", Props: []string{"C01"}}
-			ref.Requires = append(ref.Requires, mustClause("requires", "", "", r+" != nil"))
-			ref.Requires = append(ref.Requires, mustClause("requires", "", "", strings.Join(over, " || ")))
-			ref.Ensures = append(ref.Ensures, mustClause("ensures", "C01", "enc.refuse", "err != nil"))
-			fs.Behaviors = append(fs.Behaviors, ref)
-		}
-	case "dec":
-		if lt.Header != "none" {
-			fs.Behaviors[0].Requires = append(fs.Behaviors[0].Requires, mustClause("requires", "", "", r+" != nil"))
-			fs.Behaviors[0].Ensures = append(fs.Behaviors[0].Ensures, mustClause("ensures", "C10", "notunsupported", "err != sms.ErrUnsupportedPacket"))
-			fs.Options["check-default"] = "true"
-		}
-		dec := &Behavior{Name: "dec", Props: []string{"C01", "C02"}}
-		dec.Ghost = []CVar{{"gq", tn}}
-		dec.Requires = append(dec.Requires, mustClause("requires", "", "", r+" != nil"))
-		dec.Requires = append(dec.Requires, mustClause("requires", "", "", "len(data) < 4294967296"))
-		for _, f := range lt.Fields {
-			for _, c := range f.wf("gq") {
-				dec.Requires = append(dec.Requires, mustClause("requires", "", "", c))
-			}
-			if f.Kind == "rep" {
-				dec.Requires = append(dec.Requires, mustClause("requires", "", "", "len("+r+"."+f.Member+") == 0"))
-			}
-		}
-		if tf := lt.tlvField(); tf != nil {
-			dec.Ghost = append(dec.Ghost, CVar{"gord", "Ord"})
-			dec.Requires = append(dec.Requires, mustClause("requires", "", "", "isperm(gord, gq."+tf.Member+")"))
-			for _, callee := range []string{"ReadTLVs1", "ReadTLVs", "ReadOptions", "ParseOptions"} {
-				fs.Options["ghost."+callee+".M"] = "gq." + tf.Member
-				fs.Options["ghost."+callee+".ord"] = "gord"
-			}
-		}
-		dec.Requires = append(dec.Requires, mustClause("requires", "", "", "content(data) == "+strings.ReplaceAll(lt.layoutText("gq", "len(data)", true, -1, len(lt.Fields)), "ORD", "gord")))
-		dec.Ensures = append(dec.Ensures, mustClause("ensures", "C01,C02", "dec.ok", "err == nil"))
-		if lenMember != "" {
-			dec.Ensures = append(dec.Ensures, mustClause("ensures", "C01,C02", "dec.Header.len", "int("+lenMember+") == len(data)"))
-		}
-		for i, c := range lt.headerEq(r, "gq") {
-			dec.Ensures = append(dec.Ensures, mustClause("ensures", "C01,C02", fmt.Sprintf("dec.Header.%d", i), c))
-		}
-		for _, f := range lt.Fields {
-			for j, c := range f.eq(r, "gq") {
-				dec.Ensures = append(dec.Ensures, mustClause("ensures", "C01,C02", fmt.Sprintf("dec.%s.%d", f.Member, j), c))
-			}
-		}
-		fs.Behaviors = append(fs.Behaviors, dec)
-		// arbitrary input: safety, truncation reported, decoded value well-formed, allocation budget
-		safe := &Behavior{Name: "safe", Props: []string{"C03"}}
-		safe.Requires = append(safe.Requires, mustClause("requires", "", "", r+" != nil"))
-		for _, f := range lt.Fields {
-			if f.Kind == "rep" {
-				safe.Requires = append(safe.Requires, mustClause("requires", "", "", "len("+r+"."+f.Member+") == 0"))
-			}
-		}
-		safe.Ensures = append(safe.Ensures, mustClause("ensures", "C03", "trunc", fmt.Sprintf("err == nil ==> len(data) >= %d", lt.mandatory())))
-		safe.Ensures = append(safe.Ensures, mustClause("ensures", "C03", "alloc", "alloc <= 1048576 + 64 * len(data)"))
-		for _, f := range lt.Fields {
-			for j, c := range f.wf(r) {
-				if f.Kind == "bytes" || f.Kind == "rep" && j == 0 {
-					// counts are what was read: consistency of count and list is part of C11's re-encodability
+	gen := func(lt *LayoutType, suffix, props string, last bool) error {
+		lenMember, _ := lt.headerMembers(r)
+		_ = lenMember
+		switch dir[0] {
+		case "enc":
+			enc := &Behavior{Name: "enc" + suffix, Props: strings.Split(props, ",")}
+			enc.Requires = append(enc.Requires, mustClause("requires", "", "", r+" != nil"))
+			norm := map[string]bool{}
+			for _, n := range lt.Normalise {
+				for m := range n.Set {
+					norm[m] = true
 				}
-				safe.Ensures = append(safe.Ensures, mustClause("ensures", "C11", fmt.Sprintf("wf.%s.%d", f.Member, j), "err == nil ==> ("+c+")"))
+			}
+			for _, f := range lt.Fields {
+				for _, c := range f.wf(r) {
+					enc.Requires = append(enc.Requires, mustClause("requires", "", "", c))
+				}
+			}
+			if lt.Header != "none" {
+				if tf := lt.tlvField(); tf != nil {
+					// total size below 2^32 whatever order the optional parameters are emitted in
+					enc.Requires = append(enc.Requires, mustClause("requires", "", "", "forall tord Ord :: isperm(tord, "+r+"."+tf.Member+") ==> len("+strings.ReplaceAll(lt.layoutText(r, "0", true, -1, len(lt.Fields)), "ORD", "tord")+") < 4294967296"))
+				} else {
+					enc.Requires = append(enc.Requires, mustClause("requires", "", "", "len("+lt.layoutText(r, "0", true, -1, len(lt.Fields))+") < 4294967296"))
+				}
+			}
+			enc.Ensures = append(enc.Ensures, mustClause("ensures", props, "enc.ok", "err == nil"))
+			if tf := lt.tlvField(); tf != nil {
+				lay := strings.ReplaceAll(lt.layoutText(r, "len(result)", true, -1, len(lt.Fields)), "ORD", "tord")
+				enc.Ensures = append(enc.Ensures, mustClause("ensures", props, "enc.layout", "exists tord Ord :: isperm(tord, "+r+"."+tf.Member+") && result == "+lay))
+				enc.Ensures = append(enc.Ensures, mustClause("ensures", props, "enc.len", "len(result) < 4294967296"))
+			} else if lt.Header != "none" {
+				enc.Ensures = append(enc.Ensures, mustClause("ensures", props, "enc.layout", "result == "+lt.layoutText(r, "len(result)", true, -1, len(lt.Fields))))
+				enc.Ensures = append(enc.Ensures, mustClause("ensures", props, "enc.len", "len(result) < 4294967296"))
+			} else {
+				enc.Ensures = append(enc.Ensures, mustClause("ensures", props, "enc.layout", "result == "+lt.layoutText(r, "", false, -1, len(lt.Fields))))
+			}
+			for i, c := range lt.headerEq(r, "old("+r+")") {
+				_ = i
+				c2 := strings.Replace(c, "old("+r+").", "old("+r+".", 1)
+				c2 = fixOld(c, r)
+				enc.Ensures = append(enc.Ensures, mustClause("ensures", "C01", fmt.Sprintf("enc.frame.Header.%d", i), c2))
+			}
+			for _, f := range lt.Fields {
+				if norm[f.Member] {
+					continue
+				}
+				for j, c := range f.eq(r, "old("+r+")") {
+					enc.Ensures = append(enc.Ensures, mustClause("ensures", "C01", fmt.Sprintf("enc.frame.%s.%d", f.Member, j), fixOld(c, r)))
+				}
+			}
+			for _, n := range lt.Normalise {
+				for m, v := range n.Set {
+					cond := qualify(n.If, r, lt)
+					val := qualify(fmt.Sprint(v), r, lt)
+					text := fmt.Sprintf("(old(%s) ==> int(%s.%s) == old(int(%s))) && (!old(%s) ==> %s.%s == old(%s.%s))", cond, r, m, val, cond, r, m, r, m)
+					enc.Ensures = append(enc.Ensures, mustClause("ensures", "C01", "enc.norm."+m, text))
+				}
+			}
+			fs.Behaviors = append(fs.Behaviors, enc)
+			// refusal of values that do not fit their fixed-width slot
+			var over []string
+			for _, f := range lt.Fields {
+				if f.Kind == "fixed" {
+					over = append(over, fmt.Sprintf("len(%s.%s) > %d", r, f.Member, f.N))
+				}
+			}
+			if len(over) > 0 && last {
+				ref := &Behavior{Name: "refuse" + suffix, Props: []string{"C01"}}
+				ref.Requires = append(ref.Requires, mustClause("requires", "", "", r+" != nil"))
+				ref.Requires = append(ref.Requires, mustClause("requires", "", "", strings.Join(over, " || ")))
+				ref.Ensures = append(ref.Ensures, mustClause("ensures", "C01", "enc.refuse", "err != nil"))
+				fs.Behaviors = append(fs.Behaviors, ref)
+			}
+		case "dec":
+			if lt.Header != "none" && last {
+				fs.Behaviors[0].Requires = append(fs.Behaviors[0].Requires, mustClause("requires", "", "", r+" != nil"))
+				fs.Behaviors[0].Ensures = append(fs.Behaviors[0].Ensures, mustClause("ensures", "C10", "notunsupported", "err != sms.ErrUnsupportedPacket"))
+				fs.Options["check-default"] = "true"
+			}
+			dec := &Behavior{Name: "dec" + suffix, Props: strings.Split(props, ",")}
+			dec.Ghost = []CVar{{"gq", tn}}
+			dec.Requires = append(dec.Requires, mustClause("requires", "", "", r+" != nil"))
+			dec.Requires = append(dec.Requires, mustClause("requires", "", "", "len(data) < 4294967296"))
+			for _, f := range lt.Fields {
+				for _, c := range f.wf("gq") {
+					dec.Requires = append(dec.Requires, mustClause("requires", "", "", c))
+				}
+				if f.Kind == "rep" {
+					dec.Requires = append(dec.Requires, mustClause("requires", "", "", "len("+r+"."+f.Member+") == 0"))
+				}
+			}
+			if tf := lt.tlvField(); tf != nil {
+				dec.Ghost = append(dec.Ghost, CVar{"gord", "Ord"})
+				dec.Requires = append(dec.Requires, mustClause("requires", "", "", "isperm(gord, gq."+tf.Member+")"))
+				for _, callee := range []string{"ReadTLVs1", "ReadTLVs", "ReadOptions", "ParseOptions"} {
+					fs.Options["ghost."+callee+".M"] = "gq." + tf.Member
+					fs.Options["ghost."+callee+".ord"] = "gord"
+				}
+			}
+			dec.Requires = append(dec.Requires, mustClause("requires", "", "", "content(data) == "+strings.ReplaceAll(lt.layoutText("gq", "len(data)", true, -1, len(lt.Fields)), "ORD", "gord")))
+			dec.Ensures = append(dec.Ensures, mustClause("ensures", props, "dec.ok", "err == nil"))
+			if lenMember != "" {
+				dec.Ensures = append(dec.Ensures, mustClause("ensures", props, "dec.Header.len", "int("+lenMember+") == len(data)"))
+			}
+			for i, c := range lt.headerEq(r, "gq") {
+				dec.Ensures = append(dec.Ensures, mustClause("ensures", props, fmt.Sprintf("dec.Header.%d", i), c))
+			}
+			for _, f := range lt.Fields {
+				for j, c := range f.eq(r, "gq") {
+					dec.Ensures = append(dec.Ensures, mustClause("ensures", props, fmt.Sprintf("dec.%s.%d", f.Member, j), c))
+				}
+			}
+			fs.Behaviors = append(fs.Behaviors, dec)
+			if !last {
+				return nil
+			}
+			// arbitrary input: safety, truncation reported, decoded value well-formed, allocation budget
+			safe := &Behavior{Name: "safe", Props: []string{"C03"}}
+			safe.Requires = append(safe.Requires, mustClause("requires", "", "", r+" != nil"))
+			for _, f := range lt.Fields {
+				if f.Kind == "rep" {
+					safe.Requires = append(safe.Requires, mustClause("requires", "", "", "len("+r+"."+f.Member+") == 0"))
+				}
+			}
+			safe.Ensures = append(safe.Ensures, mustClause("ensures", "C03", "trunc", fmt.Sprintf("err == nil ==> len(data) >= %d", lt.mandatory())))
+			safe.Ensures = append(safe.Ensures, mustClause("ensures", "C03", "alloc", "alloc <= 1048576 + 64 * len(data)"))
+			for _, f := range lt.Fields {
+				for j, c := range f.wf(r) {
+					if f.Kind == "bytes" || f.Kind == "rep" && j == 0 {
+						// counts are what was read: consistency of count and list is part of C11's re-encodability
+					}
+					if f.Kind == "bin" {
+						// re-encodability only needs the value to fit its slot
+						c = fmt.Sprintf("len(%s.%s) <= %d", r, f.Member, f.N)
+					}
+					safe.Ensures = append(safe.Ensures, mustClause("ensures", "C11", fmt.Sprintf("wf.%s.%d", f.Member, j), "err == nil ==> ("+c+")"))
+				}
+			}
+			fs.Behaviors = append(fs.Behaviors, safe)
+		}
+		return nil
+	}
+	switch dir[0] {
+	case "enc", "dec":
+		for i, v := range variants {
+			if err := gen(v.lt, v.suffix, v.props, i == len(variants)-1); err != nil {
+				return err
 			}
 		}
-		fs.Behaviors = append(fs.Behaviors, safe)
+		return nil
 	case "cmd", "resp", "setseq", "getseq":
 		return w.synthPairing(fs, doc, r, dir[0])
 	default:
@@ -564,7 +599,11 @@ func (w *World) synthPairing(fs *FuncSpec, lt *LayoutType, r, kind string) error
 			b.Ensures = append(b.Ensures, mustClause("ensures", "C10", "cmd", fmt.Sprintf("cmdval(result) == %d", parseCmd(cmds[0]))))
 		} else {
 			// several command ids share this Go type (SMPP bind flavours): the reported command is the one in the header
-			b.Ensures = append(b.Ensures, mustClause("ensures", "C10", "cmd", fmt.Sprintf("cmdval(result) == int(%s.%s)", r, lt.idMember())))
+			var in []string
+			for _, c := range cmds {
+				in = append(in, fmt.Sprintf("int(%s.%s) == %d", r, lt.idMember(), parseCmd(c)))
+			}
+			b.Ensures = append(b.Ensures, mustClause("ensures", "C10", "cmd", fmt.Sprintf("(%s) ==> cmdval(result) == int(%s.%s)", strings.Join(in, " || "), r, lt.idMember())))
 		}
 	case "resp":
 		if isResp {
@@ -580,7 +619,11 @@ func (w *World) synthPairing(fs *FuncSpec, lt *LayoutType, r, kind string) error
 		if len(cmds) == 1 {
 			b.Ensures = append(b.Ensures, mustClause("ensures", "C10", "resp.cmd", fmt.Sprintf("int(result.%s) == %d", lt.idMember(), parseCmd(cmds[0])|0x80000000)))
 		} else {
-			b.Ensures = append(b.Ensures, mustClause("ensures", "C10", "resp.cmd", fmt.Sprintf("int(result.%s) == int(%s.%s) + 2147483648", lt.idMember(), r, lt.idMember())))
+			var in []string
+			for _, c := range cmds {
+				in = append(in, fmt.Sprintf("int(%s.%s) == %d", r, lt.idMember(), parseCmd(c)))
+			}
+			b.Ensures = append(b.Ensures, mustClause("ensures", "C10", "resp.cmd", fmt.Sprintf("(%s) ==> int(result.%s) == int(%s.%s) + 2147483648", strings.Join(in, " || "), lt.idMember(), r, lt.idMember())))
 		}
 		b.Ensures = append(b.Ensures, mustClause("ensures", "C10", "resp.seq", fmt.Sprintf("result.%s == %s.%s", lt.seqMember(), r, lt.seqMember())))
 	case "setseq":
